@@ -16,6 +16,7 @@ RULE = ('Start from a well-typed boolean term (typed generator over a random sch
         'TypeError at the expression, condition and predicate entry points (mode b: predicate entry points only) and '
         'inside event predicates of properties. Non-trivial by construction; distinct = (mode, parent operator or '
         'function, slot, injected kind, depth).')
+RULE_ADDED = ' Since the seeding rounds: mode (c) - a bound variable required at two disjoint kinds (five nesting shapes, literal domains) with a well-typed twin; own-alias spelling of the second use.'
 ASSUMPTIONS = ['clashes mediated only by equality between two different references are not injected; "definite" means '
                'fixed by a parameter of a single base type in my signature tables (Appendix A.2/A.3)']
 FLOORS = {
